@@ -334,12 +334,13 @@ PROPS['C12'] = {
 PROPS['C01'] = {
     'level': 'exploration',
     'level_text': 'Partial; three kernels under contract. (1) Verus proof on the real DataHash::verify_stream_hash_with_progress: Ok exactly when the stored hash equals the hasher outcome '
-                  'for the signed algorithm and exactly the signed exclusions (hasher contract decided under C13). (2) Bounded-exhaustive native stand-in on the real '
-                  'BoxHash::verify_stream_hash_with_progress: result == oracle (every source box matched in order, digests equal, nothing left over) for 222 box layouts x groupings x mutations. '
+                  'for the signed algorithm and exactly the signed exclusions (hasher contract decided under C13). (2) Verus proof on the real '
+                  'BoxHash::verify_stream_hash_with_progress: Ok only if the signed box list accounts for EVERY box of the handler map, in order, and every entry that is neither the C2PA box '
+                  'nor declared excluded hash-compares equal over its span (for all box lists; also run natively against an oracle on 222 layouts x groupings x mutations). '
                   '(3) Kani contract vec_compare(a,b) <=> a == b for slices <= 8. The overall level is that of the weakest kernel.',
     'level_note': 'update-manifest re-basing, BMFF hash, handler-reported exclusions (except PNG under C12) and that exclusions are part of the signed bytes (C02) are not covered; collision resistance assumed.',
     'technique': TECH_V + '; ' + TECH_B + '; ' + TECH_K,
-    'parts': [V('verus:datahash_verify', 'datahash_verify'),
+    'parts': [V('verus:datahash_verify', 'datahash_verify'), V('verus:boxhash_verify', 'boxhash_verify'),
               K('kani:vec_compare', 'sdk', [H('c01_vec_compare_contract', 'bounded', 'slices of length <= 8')], kind='bounded', timeout=900, functions=[('sdk/src/utils/hash_utils.rs', 'vec_compare')]),
               B('native:box_hash_verify', 'sdk', [T('c01_box_hash_verify_matches_oracle')], functions=[('sdk/src/assertions/box_hash.rs', 'verify_stream_hash_with_progress')],
                 bounds='1..=4 source boxes over {A,B,C2PA,PNGh}, 2 bytes each, optional gap; 5 groupings; 9 mutation kinds')],
